@@ -857,3 +857,64 @@ def check_predicates(ctx, rid, prop):
     r.stat('entries', len(tab))
     r.floor(found, int(len(tab) * 0.8) if len(tab) >= 5 else 0, 'reviewed predicates found in the tree')
     return r
+
+
+# ------------------------------------------------------------------------------------------------ update census
+
+UPDATES = os.path.join(HERE, 'rules', 'updates.json')
+_UPD_OPS = ('Add', 'Sub', 'Mul', 'AddWithOverflow', 'SubWithOverflow', 'BitOr', 'BitAnd')
+
+
+def update_sites(F, fn_name):
+    """{owner.field: ['Op:amount atoms', ...]} for every statement of fn_name (and its closures) that writes a field with a value
+    computed from the same field (x += e, x -= e, x |= m, x = x.saturating_add(e).min(..))"""
+    out = {}
+    for f in _family(F, fn_name):
+        for bi, si, pl, rv, ln in f.stmts():
+            tgt = core.write_target(f, pl)
+            if not tgt:
+                continue
+            e = strip(f.expr_of_rvalue(rv))
+
+            def reads(x):
+                return any(y[0] == 'field' and y[2] == tgt[0] and y[3] == tgt[1] for y in walk(x))
+            if e[0] == 'bin' and e[1] in _UPD_OPS and (reads(e[2]) or reads(e[3])):
+                other = e[3] if reads(e[2]) else e[2]
+                op = e[1].replace('WithOverflow', '')
+                if op == 'Sub' and not reads(e[2]):
+                    op = 'RSub'
+                out.setdefault('%s.%s' % tgt, []).append('%s:%s' % (op, '+'.join(sorted(operand_atoms(other))) or '-'))
+            elif e[0] == 'call' and e[2] and any(k in e[1] for k in ('saturating_', 'wrapping_', 'checked_', '::min', '::max')) and reads(e[2][0]):
+                atoms = '+'.join(sorted(set(a for x in e[2][1:] for a in operand_atoms(x)))) or '-'
+                out.setdefault('%s.%s' % tgt, []).append('%s:%s' % (e[1].split('::')[-1], atoms))
+    return out
+
+
+def check_updates(ctx, rid, prop):
+    """reviewed in-place updates keep their direction and amount"""
+    r = ctx.rule(rid, 'FLOW', 'update census: each reviewed in-place update of a counter / ledger / flag octet keeps its operator (+= stays +=) and the source of its amount')
+    F = ctx.facts
+    with open(UPDATES) as fh:
+        tab = [e for e in json.load(fh) if prop in e['props']]
+    found = 0
+    cache = {}
+    for e in tab:
+        fam = _family(F, e['fn'])
+        if not fam:
+            r.ok('absent|%s|%s' % (e['fn'], e['field']), '', 'function not present in this configuration (not a violation)')
+            continue
+        if e['fn'] not in cache:
+            cache[e['fn']] = update_sites(F, e['fn'])
+        got = cache[e['fn']].get(e['field'], [])
+        if not got:
+            # no in-place update of the field left: the write census (RW) reports a dropped assignment; a rewritten one is not compared
+            r.ok('restructured|%s|%s' % (e['fn'], e['field']), fam[0].file, 'no in-place update of %s found -- not compared' % e['field'].split('::')[-1])
+            continue
+        found += 1
+        need = collections.Counter(e['updates'])
+        have = collections.Counter(got)
+        r.check(not (need - have), 'update|%s|%s' % (e['fn'].replace('proto::streams::', ''), e['field'].split('::')[-1]), fam[0].file,
+                '%s updates %s by %s (reviewed: %s). %s' % (e['fn'].split('::')[-1], e['field'].split('::')[-1], sorted(got), sorted(e['updates']), e['why']))
+    r.stat('entries', len(tab))
+    r.floor(found, int(len(tab) * 0.8) if len(tab) >= 5 else 0, 'reviewed in-place updates found in the tree')
+    return r
